@@ -1155,7 +1155,17 @@ where
                         .unwrap_or(trimmed)
                         .trim()
                         .strip_prefix("@jsx")
-                        .map(str::trim)
+                        // `@jsxImportSource`, `@jsxRuntime`, `@jsxFrag` are other annotations
+                        .filter(|rest| rest.starts_with(char::is_whitespace))
+                        // the factory is the first word; it must be a (dotted) name
+                        .and_then(|rest| rest.split_whitespace().next())
+                        .filter(|name| {
+                            name.split('.').all(|part| {
+                                let mut chars = part.chars();
+                                chars.next().map(Ident::is_valid_start).unwrap_or_default()
+                                    && chars.all(Ident::is_valid_continue)
+                            })
+                        })
                 });
                 if let Some(pragma) = pragma {
                     self.pragma = Some(pragma.to_string());
